@@ -105,7 +105,7 @@ def drain (ord : Order) : Nat → State → List String → State × Option (Lis
 
 def allIdle (s : State) : Bool := s.threads.all fun th => th.pc == .idle
 
-def stored (s : State) : List Int := (s.chain.drop (s.head + 1)).take (s.tail - s.head)
+def storedNow (s : State) : List Int := (s.chain.drop (s.head + 1)).take (s.tail - s.head)
 
 def runOps (ord : Order) : State → List String → List String
   | _, [] => []
@@ -123,7 +123,7 @@ def runOps (ord : Order) : State → List String → List String
         (if acc.isEmpty then "quiet" else " ; ".intercalate acc.reverse) :: runOps ord s1 ls
       | (s1, none) => "drain-timeout" :: runOps ord s1 ls
     | ["final"] =>
-      (if allIdle s then s!"final len={s.len} {showInts (stored s)}" else "busy") :: runOps ord s ls
+      (if allIdle s then s!"final len={s.len} {showInts (storedNow s)}" else "busy") :: runOps ord s ls
     | _ => "bad-op" :: runOps ord s ls
 
 def bad (ops : List String) : List String := "bad-op" :: ops.map fun _ => "bad-op"
